@@ -146,6 +146,8 @@ func (auth *Auth) Configure(config core.ServerConfig) error {
 	}
 
 	auth.configuredDIDMethods = config.DIDMethods
+	// IAMClient() hands this to the IAM client, which validates remote endpoints with it
+	auth.strictMode = config.Strictmode
 
 	auth.contractNotary = notary.NewNotary(notary.Config{
 		PublicURL:             auth.publicURL.String(),
